@@ -44,8 +44,66 @@ def norm(name):
 
 
 def functions():
+    """the functions of the solver module; helper functions a maintainer has factored out of a solver (anything that is neither a solver of the dispatch table nor one of the
+    two helpers the rules know by name) are inlined again at their call sites - also where the call sits inside an expression (`z = -slope(...)`: the call is lifted into
+    a temporary first) - unless a local of the helper would capture a name of the caller"""
     t = M.py(RS)
-    return t, dict((f.name, f) for f in t.body if isinstance(f, ast.FunctionDef))
+    funcs = dict((f.name, f) for f in t.body if isinstance(f, ast.FunctionDef))
+    rs = funcs.get('riemann_solve')
+    kept = set(['SIGN', 'prefun_exact', 'riemann_solve'])
+    if rs is not None:
+        kept |= set(M.call_name(c) for c in M.calls(rs) if M.call_name(c) in funcs)
+    extra = [n_ for n_ in funcs if n_ not in kept]
+    if not extra:
+        return t, funcs
+    from verif_static import norm as N
+    out = {}
+    for name, fn in funcs.items():
+        if name in extra or not any((M.call_name(c) or '') in extra for c in M.calls(fn)):
+            out[name] = fn
+            continue
+        own = set(x.id for x in ast.walk(fn) if isinstance(x, ast.Name)) | set(a.arg for a in fn.args.args)
+        safe = True
+        for c in M.calls(fn):
+            h = funcs.get(M.call_name(c) or '')
+            if h is None or h.name not in extra:
+                continue
+            params = [a.arg for a in h.args.args]
+            bound_same = set(p_ for p_, a_ in zip(params, c.args) if isinstance(a_, ast.Name) and a_.id == p_)
+            hl = (set(x.id for x in ast.walk(h) if isinstance(x, ast.Name) and isinstance(x.ctx, ast.Store)) | set(params)) - bound_same
+            if hl & own:
+                safe = False
+        if not safe:
+            out[name] = fn
+            continue
+        new = N.clone(fn)
+        cnt = [0]
+
+        def lift(stmts):
+            res = []
+            for st in stmts:
+                for fld in ('body', 'orelse', 'finalbody'):
+                    if isinstance(getattr(st, fld, None), list) and not isinstance(st, (ast.FunctionDef, ast.ClassDef)):
+                        setattr(st, fld, lift(getattr(st, fld)))
+                if isinstance(st, (ast.Assign, ast.AugAssign, ast.Return, ast.Expr)) and st.value is not None:
+                    top = st.value
+                    for c in [c for c in ast.walk(st.value) if isinstance(c, ast.Call) and (M.call_name(c) or '') in extra and c is not top]:
+                        cnt[0] += 1
+                        tmp = '_lifted%d' % cnt[0]
+                        res.append(ast.copy_location(ast.Assign(targets=[ast.Name(id=tmp, ctx=ast.Store())], value=c), st))
+
+                        class R(ast.NodeTransformer):
+                            def visit_Call(self, n, c=c, tmp=tmp):
+                                if n is c:
+                                    return ast.copy_location(ast.Name(id=tmp, ctx=ast.Load()), n)
+                                return self.generic_visit(n)
+                        st.value = R().visit(st.value)
+                res.append(st)
+            return res
+        new.body = lift(new.body)
+        ast.fix_missing_locations(new)
+        out[name] = M.inlined_function(t, new, keep=kept)
+    return t, out
 
 
 def stripped(fn):
